@@ -44,6 +44,23 @@ pub const GOOD_DEPENDS: [(&str, &str, &str); 14] = [
     ("PKGNAME=x-[0-9]*:../../a/b", "PKGNAME=x-[0-9]*", "a/b"),
 ];
 
+/// Dependency number `i`: an index into the fixed pool, or (from 1000 on) a
+/// synthetic one, so that one read can hold hundreds of distinct dependency
+/// strings.  Returns (item text, pattern text, short pkgpath).
+pub fn good_dep(i: usize) -> (String, String, String) {
+    if i >= 1000 {
+        let k = i - 1000;
+        (
+            format!("lib{}>=1.{}:../../devel/lib{}", k, k % 17, k),
+            format!("lib{}>=1.{}", k, k % 17),
+            format!("devel/lib{}", k),
+        )
+    } else {
+        let d = GOOD_DEPENDS[i % GOOD_DEPENDS.len()];
+        (d.0.to_string(), d.1.to_string(), d.2.to_string())
+    }
+}
+
 pub const BAD_DEPENDS: [&str; 20] = [
     "foo-[0-9]*:../../cat/foo:bar>=1.2:../../cat/bar",
     "a:b:../../cat/pkg",
@@ -159,7 +176,7 @@ fn line_text(l: &Line) -> String {
         Item::Scalar { key, val } => format!("{}={}", SCALAR_KEYS[*key], val),
         Item::Location { good } => format!("PKG_LOCATION={}", GOOD_LOCATIONS[*good].0),
         Item::AllDepends { items, seps } => {
-            let v: Vec<String> = items.iter().map(|i| GOOD_DEPENDS[*i].0.to_string()).collect();
+            let v: Vec<String> = items.iter().map(|i| good_dep(*i).0).collect();
             format!("ALL_DEPENDS={}", join_items(&v, seps))
         }
         Item::ScanDepends { items, seps } => format!("SCAN_DEPENDS={}", join_items(items, seps)),
@@ -168,7 +185,7 @@ fn line_text(l: &Line) -> String {
         Item::NoEq { text } => text.clone(),
         Item::Blank { ws } => return ws.clone(),
         Item::BadDepends { bad, before } => {
-            let mut v: Vec<String> = before.iter().map(|i| GOOD_DEPENDS[*i].0.to_string()).collect();
+            let mut v: Vec<String> = before.iter().map(|i| good_dep(*i).0).collect();
             v.push(BAD_DEPENDS[*bad].to_string());
             format!("ALL_DEPENDS={}", v.join(" "))
         }
@@ -235,7 +252,7 @@ fn expect_of(r: &Rec) -> Expect {
             Item::AllDepends { items, .. } => {
                 e.all_depends = items
                     .iter()
-                    .map(|i| (GOOD_DEPENDS[*i].1.to_string(), GOOD_DEPENDS[*i].2.to_string()))
+                    .map(|i| { let d = good_dep(*i); (d.1, d.2) })
                     .collect()
             }
             Item::ScanDepends { items, .. } => e.scan_depends = items.clone(),
@@ -660,6 +677,90 @@ impl Property for C16 {
     }
 
     fn generate(&self, rng: &mut Rng, _run: u64, _tier: Tier) -> Sc {
+        if rng.chance(1, 300) {
+            // scale: counts beyond 255 / 256 / 4096 / 65536 - many records, one list
+            // with very many items, one key repeated very many times
+            let n = *rng.pick(&[257usize, 300, 1100, 4100, 4100, 66_000]);
+            let shape = rng.below(3);
+            let mut recs: Vec<Rec> = Vec::new();
+            let line = |item: Item| Line {
+                item,
+                lead: String::new(),
+                trail: String::new(),
+            };
+            match shape {
+                0 => {
+                    for i in 0..n {
+                        let mut lines = vec![line(Item::Scalar {
+                            key: 1 + i % 10,
+                            val: format!("v{}", i),
+                        })];
+                        if i % 2 == 0 {
+                            // more than 256 distinct dependency strings in one read, each
+                            // coming back again after the others have passed
+                            lines.push(line(Item::AllDepends {
+                                items: vec![1000 + (i / 2) % 300, i % GOOD_DEPENDS.len()],
+                                seps: vec![" ".to_string()],
+                            }));
+                        }
+                        recs.push(Rec {
+                            pkgname: format!("p{}-1.{}", i, i % 97),
+                            name_lead: String::new(),
+                            name_trail: String::new(),
+                            lines,
+                        });
+                    }
+                }
+                1 => {
+                    let k = n.min(70_000);
+                    recs.push(Rec {
+                        pkgname: "many-items-1.0".into(),
+                        name_lead: String::new(),
+                        name_trail: String::new(),
+                        lines: vec![
+                            line(Item::ScanDepends {
+                                items: (0..k).map(|i| format!("/usr/pkgsrc/c/p{}.mk", i)).collect(),
+                                seps: (0..k).map(|_| " ".to_string()).collect(),
+                            }),
+                            line(Item::AllDepends {
+                                items: (0..k.min(5000)).map(|i| i % GOOD_DEPENDS.len()).collect(),
+                                seps: (0..k.min(5000)).map(|_| " ".to_string()).collect(),
+                            }),
+                        ],
+                    });
+                }
+                _ => {
+                    let k = n.min(70_000);
+                    recs.push(Rec {
+                        pkgname: "many-repeats-1.0".into(),
+                        name_lead: String::new(),
+                        name_trail: String::new(),
+                        lines: (0..k)
+                            .map(|i| {
+                                line(Item::Scalar {
+                                    key: 1 + i % 3,
+                                    val: format!("r{}", i),
+                                })
+                            })
+                            .collect(),
+                    });
+                    recs.push(Rec {
+                        pkgname: "after-1.0".into(),
+                        name_lead: String::new(),
+                        name_trail: String::new(),
+                        lines: vec![],
+                    });
+                }
+            }
+            return Sc {
+                orphan: vec![],
+                recs,
+                final_newline: true,
+                seam: if rng.chance(1, 2) { Seam::Direct } else { Seam::Buffered(8192) },
+                script: Vec::new(),
+                nested: None,
+            };
+        }
         let n = match rng.below(10) {
             0 => 0,
             1..=2 => 1,
@@ -863,7 +964,7 @@ impl Property for C16 {
             let mut seen = [0u8; 12];
             for l in &r.lines {
                 if let Item::Scalar { key, val } = &l.item {
-                    seen[*key] += 1;
+                    seen[*key] = seen[*key].saturating_add(1);
                     if seen[*key] == 2 {
                         ctx.probe("repeated-key");
                     }
@@ -1120,7 +1221,7 @@ impl Property for C16 {
     }
 
     fn work_factor(&self) -> Option<u64> {
-        Some(1024)
+        Some(2048)
     }
     fn rule(&self) -> String {
         "Each run draws 0..8 records from a structured model (PKGNAME first, then any subset/order of the other \
